@@ -336,6 +336,12 @@ func (vc *VC) gcIntrinsic(fr *Frame, inst *ssa.Function, args []SV) ([]SV, bool)
 			}
 		}
 		return []SV{scalar(and(cs...))}, true
+	case "gcSameRef":
+		var cs []string
+		for j := range args[0].L {
+			cs = append(cs, eq(args[0].L[j], args[1].L[j]))
+		}
+		return []SV{scalar(and(cs...))}, true
 	case "gcSameArray":
 		return []SV{scalar(eq(args[0].L[0], args[1].L[0]))}, true
 	case "gcImplies":
